@@ -160,6 +160,7 @@ Definition data_verdict_ok (maxb : N) (lines : list bytes) (code : N) : bool :=
 Definition s_hdr_date : bytes := [68; 97; 116; 101; 58]%N.                                  (* "Date:" *)
 Definition s_hdr_from : bytes := [70; 114; 111; 109; 58]%N.                                 (* "From:" *)
 Definition s_hdr_msgid : bytes := [77; 101; 115; 115; 97; 103; 101; 45; 73; 100; 58]%N.      (* "Message-Id:" *)
+Definition submission_port : bytes := SUBM_PORT.                                             (* TCPLOCALPORT that switches submission mode on *)
 Definition dot_line (l : bytes) : bool := N.eqb (nth 0 l 0%N) DOT.
 (** a field of that name is present: a header line that, as transmitted, does not start with a dot begins with the name (any case) *)
 Definition field_line (name l : bytes) : bool := negb (dot_line l) && strncaseeq name l.
@@ -185,9 +186,26 @@ Definition queued (p : subm_par) (lines : list bytes) : bytes :=
 Definition par_of (dc : dcfg) : subm_par :=
   {| sp_on := d_subm dc; sp_date := d_date dc; sp_from := d_from dc; sp_stamp := d_stamp dc; sp_host := d_idhost dc |}.
 
+(** THE PROPERTY AS STATED judges "the client omitted the field" on the message the client submitted, i.e. on the lines as
+    qmail-queue receives them (leading dot removed): [field_stored].  The code judges it on the lines as transmitted and
+    skips every line that starts with a dot ([field_present]).  The two differ exactly for a header line that hides one of
+    the three names behind a needless leading dot (".Date: x" is stored as "Date: x"): [hidden_field]. *)
+Definition field_stored (name : bytes) (hdr : list bytes) : bool := existsb (fun l => strncaseeq name (unstuff l)) hdr.
+Definition hidden_line (l : bytes) : bool :=
+  dot_line l && (strncaseeq s_hdr_date (unstuff l) || strncaseeq s_hdr_from (unstuff l) || strncaseeq s_hdr_msgid (unstuff l)).
+Definition hidden_field (hdr : list bytes) : bool := existsb hidden_line hdr.
+
+Definition subm_fields_full (p : subm_par) (hdr : list bytes) : bytes :=
+  (if field_stored s_hdr_date hdr then [] else SUBM_DATE_PFX ++ sp_date p ++ [LF])
+  ++ (if field_stored s_hdr_from hdr then [] else SUBM_FROM_PFX ++ sp_from p ++ SUBM_FROM_END)
+  ++ (if field_stored s_hdr_msgid hdr then [] else SUBM_MSGID_PFX ++ sp_stamp p ++ SUBM_MSGID_AT ++ sp_host p ++ SUBM_MSGID_END).
+Definition queued_full (p : subm_par) (lines : list bytes) : bytes :=
+  stored (hdr_part lines) ++ (if sp_on p then subm_fields_full p (hdr_part lines) else []) ++ stored (body_part lines).
+
 (** checker for the message of one hand-off, applied to the implementation: it ends with exactly the data lines the client
-    sent (CRLF -> LF, one leading dot removed) - in submission mode with exactly the missing ones of the three fields
-    inserted at the end of the header block; what stands before that is the trace header.  Sound: Proofs/DataProofs.v *)
+    sent (CRLF -> LF, one leading dot removed) - in submission mode with exactly the ones of the three fields that the
+    submitted message lacks inserted at the end of the header block; what stands before that is the trace header.
+    Sound for the model outside the class [hidden_field]: Proofs/DataProofs.v *)
 Definition handoff_msg_ok (p : subm_par) (lines : list bytes) (msg : bytes) : bool :=
-  Nat.leb (length (queued p lines)) (length msg)
-  && bytes_eqb (skipn (length msg - length (queued p lines)) msg) (queued p lines).
+  Nat.leb (length (queued_full p lines)) (length msg)
+  && bytes_eqb (skipn (length msg - length (queued_full p lines)) msg) (queued_full p lines).
